@@ -139,6 +139,20 @@ def correspond(ctx):
     if c.get('bad_op', 0) and c.get('ok'):
         c['ok'] = False
         c.setdefault('errors', []).append('%d generated op lines were answered bad-op by the model' % c['bad_op'])
+    # a call into the code under test that did not return within the per-call deadline: property-level
+    # violation `hang:<op kind>`, replay = the op line (for gen/lgen/deliver/dkg the arrival history)
+    try:
+        paths = c.get('paths') or {}
+        with open(paths['ops'], errors='replace') as fo, open(paths['obs'], errors='replace') as fb:
+            for o, x in zip(fo, fb):
+                if x.startswith('HANG'):
+                    o = o.rstrip('\n')
+                    c.setdefault('violations', []).append(dict(
+                        key='hang:' + o.split(' ')[0],
+                        desc='the real code did not return (%s) on this op; every later call on the same object blocks' % x.strip(),
+                        replay=dict(op=o, how="harness/bin/c13 mode=exec op='<op>'")))
+    except Exception:
+        pass
     c['name'] = 'c13'
     return [c]
 
